@@ -233,6 +233,16 @@ distinct = distinct (accessor, d, t-class); oracle = harness integer calendar: e
     let r2 = rng.below(86_400_000) as u32;
     let r3 = rng.below(86_400_000) as u32;
     let mut ts: Vec<u32> = vec![0, 1, 43_200_000, 86_399_999, r1, r2, r3];
+    if ctx.tier == crate::ev::Tier::Thorough {
+        // thorough: 40 further seeded times of day and every boundary of an hour
+        for _ in 0..40 {
+            ts.push(rng.below(86_400_000) as u32);
+        }
+        for h in 1..24u32 {
+            ts.push(h * 3_600_000);
+            ts.push(h * 3_600_000 - 1);
+        }
+    }
     ts.sort();
     ts.dedup();
 
@@ -249,11 +259,17 @@ distinct = distinct (accessor, d, t-class); oracle = harness integer calendar: e
     for acc in MIN_ACCS {
         let mut prev = None;
         for d in 1..=65_535u16 {
-            for (ti, &t) in [0u32, 719, 1439].iter().enumerate() {
+            let mins: &[u32] = if ctx.tier == crate::ev::Tier::Thorough { &[0, 1, 59, 60, 719, 720, 1380, 1438, 1439] } else { &[0, 719, 1439] };
+            for (ti, &t) in mins.iter().enumerate() {
                 check_in_range(ctx, acc, d, t, ti as u64, &mut prev);
             }
         }
-        for d in [1u16, 366, 19_000, 65_535] {
+        let days: Vec<u16> = if ctx.tier == crate::ev::Tier::Thorough {
+            (0..400).map(|k| (1 + k * 164) as u16).chain([65_535u16]).collect()
+        } else {
+            vec![1u16, 366, 19_000, 65_535]
+        };
+        for d in days {
             let mut prev = None;
             for t in 0..1440u32 {
                 check_in_range(ctx, acc, d, t, 100 + t as u64, &mut prev);
